@@ -269,6 +269,58 @@ pub fn generate(sink: &mut Sink, seed: u64, thorough: bool) {
         sink.stat("crash_program");
         sink.stat_n("crash_writes", writes.len() as u64);
     }
+    // ---------------------------------------------------------------- 4. abandoned sessions (C15)
+    // a program that never reaches a successful top-level finalize (the writer is dropped instead)
+    // must not leave anything on the device that the reader accepts, at any moment
+    let nabort = if thorough { 200 } else { 40 };
+    for _ in 0..nabort {
+        let mut prog = {
+            let mut g = Gen { rng: &mut rng, exts: vec![], n: 0 };
+            g.program(6)
+        };
+        prog.stmts.pop(); // the finalize
+        if !prog.stmts.is_empty() && rng.chance(1, 2) {
+            let keep = 1 + rng.below(prog.stmts.len() as u64) as usize;
+            prog.stmts.truncate(keep);
+        }
+        if rng.chance(1, 2) {
+            match prog.stmts.last_mut() {
+                Some(Stmt::Pc { end, .. }) | Some(Stmt::Img { end, .. }) => *end = false,
+                _ => {}
+            }
+        }
+        let dev = SimDev::new(vec![]);
+        dev.set_record(true);
+        let run = execute(&prog, &dev);
+        if run.panicked {
+            continue;
+        }
+        let line = prog.case_line(&lv);
+        let writes: Vec<(u64, Vec<u8>)> = dev.log().into_iter().filter_map(|e| if let Ev::Write(o, b) = e { Some((o, b)) } else { None }).collect();
+        let mut image: Vec<u8> = vec![];
+        let stride = if thorough || writes.len() < 40 { 1 } else { writes.len() / 30 };
+        for (i, (off, bytes)) in writes.iter().enumerate() {
+            let off = *off as usize;
+            if image.len() < off + bytes.len() {
+                image.resize(off + bytes.len(), 0);
+            }
+            image[off..off + bytes.len()].copy_from_slice(bytes);
+            if i % stride == 0 || i + 3 >= writes.len() {
+                sink.oracle_evals += 1;
+                let img = image.clone();
+                if let Ok(Ok(_)) = guarded(|| reader_digest(SimDev::new(img.clone()), 1000)) {
+                    sink.fail("C15", "crash/abandoned-session-accepted", &format!("{line} ## abandoned, device after write {i} of {}", writes.len()), "the writer was dropped without a successful finalize, yet the device content is accepted as a complete file");
+                    break;
+                }
+            }
+        }
+        sink.oracle_evals += 1;
+        let fin = run.file.clone();
+        if let Ok(Ok(_)) = guarded(|| reader_digest(SimDev::new(fin.clone()), 1000)) {
+            sink.fail("C15", "crash/abandoned-session-accepted", &format!("{line} ## abandoned, final device content"), "the writer was dropped without a successful finalize, yet the device content is accepted as a complete file");
+        }
+        sink.stat("abandoned_program");
+    }
 }
 
 /// debugging aid: `e57harness exec devdbg <file with one case line>`
